@@ -131,6 +131,78 @@ def lookup(rep):
         r = pr.prove(list(s.pc), ex.truth(v) == z3.Or(z3.Select(Hc, wroot) != NONE, M.truthy(wroot)))
         rep.add(f'C06.is_packages_trie.post.path{pi}', r.status, time=r.time, backend=r.backend, where='true iff beartype_all is active or some package is registered (root trie non-empty)')
 
+def registration(rep):
+    """(F) the two loop-free registration functions.  hook_packages(): nothing is blacklisted and no path hook is added unless the
+    whitelisting step returned normally (a conflicting call leaves the registry as it was: the raising callee runs FIRST), everything
+    happens under claw_lock.  _whitelist_packages_all(): raises exactly when another configuration is registered and writes nothing then;
+    otherwise the registered configuration is the passed one."""
+    from pyvc import funcmode, model as M, discharge, symx
+    from pyvc.symx import Exec, St, VObj, VPy, VBool, VExc
+    import beartype.claw._package.clawpkgmain as mod
+    from beartype.roar import BeartypeClawHookException
+    uni = M.Universe(); uni.const(BeartypeClawHookException)
+    CONF = z3.Const('conf', M.Obj); HCONF = z3.Const('conf_hookable', M.Obj); NAMES = z3.Const('package_names', M.Obj); COV = z3.Const('claw_coverage', M.Obj)
+    conflict = z3.Bool('whitelisting_conflicts')
+    def m_white(tag):
+        def m(ex, s, f, a, kw, w):
+            outs = []
+            for s2, c in ex.fork(s.ev('whitelist_called', tag), conflict):
+                if c: ex.raised.append((s2.ev('whitelist_raised'), VExc(BeartypeClawHookException)))
+                else: outs.append((s2.ev('whitelist_done'), VPy(None)))
+            return outs
+        return m
+    def m_ev(tag): return lambda ex, s, f, a, kw, w: [(s.ev(tag), VPy(None))]
+    def m_hookable(ex, s, f, a, kw, w): return [(s, VObj(HCONF))]
+    def m_names(ex, s, f, a, kw, w): return [(s, VObj(NAMES))]
+    def m_opt(ex, s, f, a, kw, w): return [(s, VBool(z3.Bool('python_optimized')))]
+    fobj, node, _ = funcmode.load('beartype/claw/_package/clawpkgmain.py', 'hook_packages')
+    cm = {mod._whitelist_packages_all: m_white('all'), mod._whitelist_packages_some: m_white('some'), mod._blacklist_packages: m_ev('blacklist'), mod.add_beartype_path_hook: m_ev('add_path_hook'),
+          mod.make_conf_hookable: m_hookable, mod.make_package_names_from_args: m_names, mod.is_python_optimized: m_opt}
+    ex = Exec(uni, dict(mod.__dict__), call_model=cm, name='hook_packages'); ex.fields_mode = True
+    outs = ex.run_function(node, St(), (), {'claw_coverage': VObj(COV), 'conf': VObj(CONF), 'package_name': VPy(None), 'package_names': VPy(None)}, fobj)
+    n = 0
+    for i, (s_, v) in enumerate(outs):
+        n += 1; evs = [e[0] for e in s_.events]
+        ok = True
+        if 'blacklist' in evs or 'add_path_hook' in evs:
+            first_side = min(evs.index(x) for x in ('blacklist', 'add_path_hook') if x in evs)
+            ok = 'whitelist_done' in evs and evs.index('whitelist_done') < first_side
+        rep.add(f'C06.hook_packages.post.side_effects_after_whitelisting.path{i}', 'proved' if ok else 'refuted', backend='structural', where=f'events {evs}: skip names are blacklisted and the path hook is added only after the (possibly raising) whitelisting step returned')
+    for i, (s_, v) in enumerate(ex.raised):
+        n += 1; evs = [e[0] for e in s_.events]
+        rep.add(f'C06.hook_packages.post.conflict_changes_nothing.path{i}', 'proved' if not ({'blacklist', 'add_path_hook'} & set(evs)) else 'refuted', backend='structural', where=f'events {evs}: a raising call blacklists nothing and adds no hook')
+    if not n: rep.error('C06.hook_packages: no path')
+    # _whitelist_packages_all
+    fobj, node, _ = funcmode.load('beartype/claw/_package/clawpkgmain.py', '_whitelist_packages_all')
+    CS = z3.Const('claw_state', M.Obj)
+    import beartype.claw._clawstate as stmod
+    scope = dict(mod.__dict__); scope['claw_state'] = VObj(CS)
+    ex = Exec(uni, scope, call_model={}, name='_whitelist_packages_all'); ex.fields_mode = True
+    # the function imports claw_state locally: make that import bind the symbolic state
+    orig_import = ex.s_ImportFrom
+    def s_ImportFrom(n_, st):
+        if any(a.name == 'claw_state' for a in n_.names): return [('next', st.set('claw_state', VObj(CS)), None)]
+        return orig_import(n_, st)
+    ex.s_ImportFrom = s_ImportFrom
+    body = [st for st in node.body if not isinstance(st, ast.Assert) and not (isinstance(st, ast.Expr) and isinstance(st.value, ast.Constant))]
+    outs = ex.exec_block(body, St((('conf', VObj(CONF)),)))
+    Hw = z3.Const('H_packages_trie_whitelist', z3.ArraySort(M.Obj, M.Obj)); Hc0 = z3.Const('H_conf_if_hooked', z3.ArraySort(M.Obj, M.Obj))
+    ROOT = z3.Select(Hw, CS); OLD = z3.Select(Hc0, ROOT); NONE = uni.const(None)
+    pr = discharge.Prover(uni.axioms())
+    for ob in ex.obls:
+        r = pr.prove(list(ob.pc), ob.goal); rep.add(f'C06.whitelist_all.{ob.kind}#{ob.name.rsplit(".", 1)[-1]}', r.status, time=r.time, backend=r.backend, where=ob.where)
+    m = 0
+    for i, (kind, s_, v) in enumerate(list(outs) + [('raise', s2, v2) for s2, v2 in ex.raised]):
+        m += 1
+        new = z3.Select(ex.field(s_, 'conf_if_hooked'), ROOT)
+        if kind == 'raise':
+            r = pr.prove(list(s_.pc), z3.And(OLD != NONE, z3.Not(M.eq(OLD, CONF)), new == OLD))
+            rep.add(f'C06.whitelist_all.post.raises_only_on_conflict_and_writes_nothing.path{i}', r.status if (isinstance(v, VExc) and v.cls is BeartypeClawHookException) else 'refuted', time=r.time, backend=r.backend)
+        else:
+            r = pr.prove(list(s_.pc), z3.And(z3.Or(OLD == NONE, M.eq(OLD, CONF)), z3.If(OLD == NONE, new == CONF, new == OLD)))
+            rep.add(f'C06.whitelist_all.post.registers_or_keeps_equal.path{i}', r.status, time=r.time, backend=r.backend, reason=r.reason, where='returns normally only if nothing or an equal configuration was registered; registers the passed configuration in the first case and changes nothing in the second')
+    if not m: rep.error('C06.whitelist_all: no path')
+
 FRESH_SRC = """
 import sys
 preloaded = set(sys.modules)
@@ -167,12 +239,12 @@ def fresh_interpreter(rep):
 
 def main(tier, seed):
     rep = report.Report('C06', tier, seed, 'proof', f'./check C06 --tier {tier}')
-    for fn in (lookup, fresh_interpreter, histories):
+    for fn in (lookup, registration, fresh_interpreter, histories):
         try: fn(rep) if fn is not histories else fn(rep, tier, seed)
         except Exception: rep.error(f'C06 {fn.__name__}: ' + traceback.format_exc()[-2500:])
     files = ['beartype/claw/_package/clawpkgtrie.py', 'beartype/claw/_package/clawpkgmain.py', 'beartype/claw/_package/clawpkgcontext.py', 'beartype/claw/_package/_clawpkgmake.py', 'beartype/claw/_clawstate.py']
     rep.functions = ['clawpkgtrie.is_package_blacklisted (loop invariant)', 'clawpkgtrie.iter_packages_trie (loop invariant + ghost yield sequence)', 'clawpkgtrie.get_package_conf_or_none (callee contracts + loop invariant)',
-                     'clawpkgtrie.is_packages_trie', 'registration functions: bounded run-time contract only'] + [f'{p}@{report.src_hash(p)}' for p in files]
+                     'clawpkgtrie.is_packages_trie', 'clawpkgmain.hook_packages (ordering of the raising whitelisting step and the side effects)', 'clawpkgmain._whitelist_packages_all', 'trie-walking registration functions (_whitelist_packages_some, _blacklist_packages): bounded run-time contract only'] + [f'{p}@{report.src_hash(p)}' for p in files]
     from pyvc import model as M
     rep.trusted = ['pyvc', 'z3 5.1 / cvc5'] + M.ASSUMED_SEMANTICS
     rep.assumptions = ['the trie heap is child(node, basename) (the trie classes ARE dicts; .get returns the child or None); registry invariant: both roots are real tries (never None / the sentinel)',
